@@ -133,6 +133,11 @@ def _packed_form(s, what: str) -> bytes:
 #   the RESULT of earlier additions. Every intermediate stamp is compared with a stamp built directly from its (days, ms).
 # Views of a stamp that came out of from_datetime()/now() may keep the sub-millisecond part of the caller's datetime (module
 # docstring); for those sources the two time views are floored to the millisecond before they are compared.
+# Case key "refused" (cds_add): additions that leave the 16-bit day range were tried on the stamp BEFORE the line's own
+# addition (see _refused_first). "... or OverflowError when the day count would exceed 16 bits": a refused addition is a
+# refusal - on EVERY cds_add line that is answered with OverflowError the operand is looked at afterwards (_add_or_intact): it
+# shows its old (days, ms) in every view, packs to 0x40 | days | ms, is == a directly built stamp; it is not left outside the
+# property's domain (day count > 65535, pack() raising).
 # Case keys "alt_p" / "alt_old" of cds_unpack (the line's own octets are canonical): the same day / millisecond octets are
 # also decoded behind first octet alt_p (0..255), through unpack and through read_from_raw into a stamp that held alt_old.
 # Whether one of the 15 preambles that differ from 0x40 only in bits the decoder does not document is accepted is NOT claimed
@@ -234,6 +239,41 @@ def _floored_payload(s) -> Dict[str, Any]:
             "unix_ms": _nearest(s.as_unix_seconds(), 1_000_000) // 1000, "dt_us": us // 1000 * 1000}
 
 
+def _still_is(s, d: int, ms: int, what: str, views=None):
+    """after a refused addition: the operand shows its old (d, ms) in every view, packs (0x40 | d | ms, no exception) and is ==
+    a stamp built directly - a refusal does not leave a stamp outside the property's domain (day count > 65535, pack() failing)"""
+    _as_fresh(s, CdsShortTimestamp(d, ms), what, views)
+    _packed_form(s, "pack() " + what)
+
+
+def _add_or_intact(s, td, d: int, ms: int, what: str, views=None):
+    """s + td where s holds (d, ms). "...or OverflowError when the day count would exceed 16 bits": a refused addition is a
+    refusal - the OverflowError is passed on as the answer of the line, after the operand has been looked at"""
+    try:
+        return s + td
+    except OverflowError:
+        _still_is(s, d, ms, f"after {what} + {td!r} was refused with OverflowError, the operand", views)
+        raise
+
+
+def _refused_first(a, s, what: str, views=None):
+    """Case key "refused" (cds_add; not read by the model ops): [[td_days, td_s, td_us], ...] - additions that leave the 16-bit
+    day range were tried on the stamp of the line, one after the other, BEFORE the line's own addition. Each must be refused
+    with OverflowError and leave the operand as it was; the line's own addition on the same object is then answered by the
+    model for the line's (days, ms) - the refusals are no part of the value."""
+    d, ms = a["days"], a["ms"]
+    for tdf in a.get("refused", ()):
+        tdr = timedelta(days=tdf[0], seconds=tdf[1], microseconds=tdf[2])
+        if tdr < timedelta(0) or (tdr.days, tdr.seconds, tdr.microseconds) != tuple(tdf) or \
+                (d * MS + ms + tdf[0] * MS + tdf[1] * 1000 + tdf[2] // 1000) // MS <= MAX_DAYS:
+            raise InfraError(f"malformed line: refused={tdf} does not leave the day range")
+        try:
+            _add_or_intact(s, tdr, d, ms, what, views)
+        except OverflowError:
+            continue
+        raise SelfCheckFailure(f"{what} + {tdr!r} is accepted: the day count exceeds 16 bits")
+
+
 def _add_from_source(a, td):
     src = a["src"]
     views = _src_views(src)
@@ -242,14 +282,26 @@ def _add_from_source(a, td):
         d, ms = int(s.ccsds_days), int(s.ms_of_day)
         what = f"CdsShortTimestamp.now() = ({d}, {ms})"
         _as_fresh(s, CdsShortTimestamp(d, ms), what, views)
-        r = s + td
-        _as_fresh(r, CdsShortTimestamp(d, ms) + td, what + f" + {td!r}", views)
-        _packed_form(r, f"pack() of {what} + {td!r}")
-        return _stamp_payload(CdsShortTimestamp(a["days"], a["ms"]) + td)
+        twin = CdsShortTimestamp(d, ms)
+        try:
+            r = _add_or_intact(s, td, d, ms, what, views)
+        except OverflowError:
+            r = None
+        try:
+            want = twin + td
+        except OverflowError:
+            want = None
+        if (r is None) != (want is None):
+            raise SelfCheckFailure(f"{what} + {td!r} is {'refused' if r is None else 'accepted'}, CdsShortTimestamp({d}, {ms}) + the same is not")
+        if r is not None:
+            _as_fresh(r, want, what + f" + {td!r}", views)
+            _packed_form(r, f"pack() of {what} + {td!r}")
+        return _stamp_payload(_add_or_intact(CdsShortTimestamp(a["days"], a["ms"]), td, a["days"], a["ms"], "CdsShortTimestamp(days, ms)"))
     s, what = _sourced_stamp(a)
+    _refused_first(a, s, what, views)
     # the line's own addition: a refusal is the answer of the line, and the model's answer on (days, ms, timedelta) is the
     # reference for the sum (the payload), whatever the source was
-    r = s + td
+    r = _add_or_intact(s, td, a["days"], a["ms"], what, views)
     _packed_form(r, f"pack() of {what} + {td!r}")
     return _floored_payload(r) if views is FLOOR_VIEWS else _stamp_payload(r)
 
@@ -403,12 +455,15 @@ def op_cds_add(a):
             raise InfraError(f"malformed line: how={h['how']!r}")
         what = f"a stamp that was ({h['days']}, {h['ms']}), had been read and was brought to ({a['days']}, {a['ms']}) in place ({h['how']})"
         _as_fresh(s, CdsShortTimestamp(a["days"], a["ms"]), what)
-        r = s + td
+        _refused_first(a, s, what)
+        r = _add_or_intact(s, td, a["days"], a["ms"], what)
         _as_fresh(r, CdsShortTimestamp(a["days"], a["ms"]) + td, what + f" + {td!r}")
         return _stamp_payload(r)
     s = CdsShortTimestamp(a["days"], a["ms"])
     s.pack()    # a stamp that was packed before the addition: the sum must not keep the old packed form
-    r = s + td
+    what = f"CdsShortTimestamp({a['days']}, {a['ms']})"
+    _refused_first(a, s, what)
+    r = _add_or_intact(s, td, a["days"], a["ms"], what)
     _packed_form(r, "pack() of stamp + timedelta")
     return _stamp_payload(r)
 
@@ -466,7 +521,7 @@ def _td_fields(total_us: int) -> Tuple[int, int, int]:
 
 
 def _add_case(days: int, ms: int, td: Tuple[int, int, int], tag: str, hist: Optional[Dict[str, Any]] = None,
-              src: Optional[Dict[str, Any]] = None) -> Case:
+              src: Optional[Dict[str, Any]] = None, refused: Optional[List[List[int]]] = None) -> Case:
     tdays, ts, tus = td
     t = days * MS + ms + tdays * MS + ts * 1000 + tus // 1000
     op = {"op": "cds_add", "days": days, "ms": ms, "td_days": tdays, "td_s": ts, "td_us": tus}
@@ -474,6 +529,8 @@ def _add_case(days: int, ms: int, td: Tuple[int, int, int], tag: str, hist: Opti
         op["hist"] = hist
     if src is not None:
         op["src"] = src
+    if refused:
+        op["refused"] = [list(x) for x in refused]
     if t // MS > MAX_DAYS:
         return Case(op, "invalid", errclass=True, tag=tag + "-overflow")
     return Case(op, "valid", tag=tag)
@@ -813,6 +870,51 @@ class C14(Prop):
             yield _add_case(d, ms, _td_fields(tot_us), "src-random-" + src["how"] + ("-then-add" if "pre" in src else ""), src=src)
         for tus in (1, 999, 1400, 999_999):
             yield _add_case(24170, 1, (0, 0, tus), "src-now", src={"how": "now"})
+        yield _add_case(24170, 1, (70000, 0, 999), "src-now", src={"how": "now"})
+        yield _add_case(24170, 1, (65536, 86399, 999_999), "src-now", src={"how": "now"})
+        # --- refused additions (every line above whose answer is OverflowError looks at the operand afterwards); here: the
+        #     refusal by the carry alone, by the days alone, by both, from every source, and (key "refused") followed by a
+        #     valid addition on the same object ---------------------------------------------------------------------------
+        def refusals(d, ms):
+            """timedeltas that take (d, ms) out of the range: by the carry only (last day), by the days only, by both"""
+            room = MAX_DAYS - d
+            out = [(room + 1, 0, 0), (room + 1, 0, 999), (room, 0, (MS - ms) * 1000), (room, 0, (MS - ms) * 1000 + 999),
+                   (room, 86399, 999_999) if ms > 0 else (room + 1, 0, 1), (room + 1000, 1, 1000), (10 ** 6, 0, 0)]
+            return [_td_fields(x[0] * DAY_US + x[1] * 1_000_000 + x[2]) for x in out]
+
+        def sources(d, ms):
+            return [None, {"how": "new"}, {"how": "unpack"}, {"how": "unpack", "buf": "bytearray"}, {"how": "read", "old": old_fields()},
+                    {"how": "from_unix_days"}, {"how": "from_dt", "rem_us": 0}, {"how": "from_dt", "rem_us": 999},
+                    {"how": "from_dt", "rem_us": rng.choice([1, 500, 700])}, with_pre({"how": "new"}, d, ms, 1),
+                    with_pre({"how": "from_dt", "rem_us": 999}, d, ms, 2)]
+
+        def histories(d, ms):
+            d0 = max(d - 2, 0)
+            return [{**old_fields(), "how": "read"},
+                    {"days": d0, "ms": rng.randrange(0, ms + 1) if d0 == d else rng.randrange(MS), "how": "add"}]
+
+        spots = [(MAX_DAYS, MS - 1), (65000, 5), (MAX_DAYS, MS - 5), (MAX_DAYS, 0), (100, 0), (MAX_DAYS - 1, MS - 1), (0, 0),
+                 (4382, MS - 1), (24170, 43_200_000)] + [(rdays(), rms()) for _ in range(4 * mult)]
+        for d, ms in spots:
+            rf = refusals(d, ms)
+            if (d, ms) == (MAX_DAYS, MS - 1):
+                rf.insert(0, (0, 0, 1000))            # day 65535, 23:59:59.999 + 1 ms
+            if (d, ms) == (65000, 5):
+                rf.insert(0, (1000, 0, 1000))         # (65000, 5) + 1000 d 1 ms
+            room_ms = (MAX_DAYS - d) * MS + MS - 1 - ms     # what still fits
+            valid_after = [(0, 0, 0), (0, 0, 999), _td_fields(room_ms * 1000 + 999), _td_fields(rng.randint(0, room_ms) * 1000 + rng.choice([0, 1, 999]))]
+            for j, tdf in enumerate(rf):
+                for src in sources(d, ms):
+                    yield _add_case(d, ms, tdf, "refused-" + (src["how"] if src else "plain"), src=src)
+                for h in histories(d, ms):
+                    yield _add_case(d, ms, tdf, "refused-hist-" + h["how"], hist=h)
+            for va in valid_after:
+                for src in sources(d, ms):
+                    yield _add_case(d, ms, va, "refused-then-valid", src=src, refused=rng.sample(rf, rng.choice([1, 1, 2])))
+                for h in histories(d, ms):
+                    yield _add_case(d, ms, va, "refused-then-valid", hist=h, refused=[rng.choice(rf)])
+            # a refusal, then an addition that is refused as well
+            yield _add_case(d, ms, rf[0], "refused-twice", refused=[rf[-1], rf[1]])
         for d in DAY_POOL:
             for ms in MS_POOL:
                 for tdf in ((0, 0, (MS - ms) * 1000 % DAY_US), (0, 0, max((MS - ms) * 1000 - 1, 0) % DAY_US), (1, 0, 0), (0, 0, 999), (0, 0, 1000)):
